@@ -303,6 +303,64 @@ def run_into(chk, prop, tier):
             items.append((sid_, label, run))
         for label, run in explore.hold_variants(make, decide0=h2_decide, max_ops=40 if quick else 200):
             items.append((sid_, label, run))
+        # server BURSTS: k frames are sent back to back (they arrive in one segment), then the client gets one
+        # network operation, and so on - for k = 1..4, with the arrivals / gates first or last
+        for k in (1, 2, 3, 4):
+            for first in ("client", "server"):
+                run = make()
+                state = {"n": 0}
+
+                def decide(r, en, k=k, first=first, state=state):
+                    en = [x for x in en if x[0] != "tick"] or en
+                    if not en:
+                        return None
+                    srv = [x for x in en if x[0] == "srv"]
+                    cli = [x for x in en if x[0] in ("start", "gate")]
+                    ops = [x for x in en if x[0] == "op"]
+                    if first == "client" and cli:
+                        return cli[0]
+                    if srv and state["n"] < k:
+                        state["n"] += 1
+                        return srv[0]
+                    state["n"] = 0
+                    if ops:
+                        return ops[-1] if k % 2 == 0 else ops[0]
+                    return (cli or srv or en)[0]
+
+                run.run(decide, max_choices=3000)
+                items.append((sid_, ("burst", k, first), run))
+        # ... and bursts that START with a SETTINGS change (it travels ahead of DATA frames in one segment),
+        # the change withheld until the j-th burst
+        if srv.get("settings"):
+            for k in (2, 3):
+                for j in range(0, 10):
+                    run = make()
+                    state = {"n": 0, "burst": 0}
+
+                    def decide(r, en, k=k, j=j, state=state):
+                        en = [x for x in en if x[0] != "tick"] or en
+                        if not en:
+                            return None
+                        cli = [x for x in en if x[0] in ("start", "gate")]
+                        if cli:
+                            return cli[0]
+                        sets = [x for x in en if x[0] == "srv" and x[2] == "settings"]
+                        nxt = [x for x in en if x[0] == "srv" and x[2] != "settings"]
+                        ops = [x for x in en if x[0] == "op"]
+                        if state["n"] < k and (nxt or (sets and state["burst"] >= j)):
+                            state["n"] += 1
+                            if sets and state["burst"] >= j and state["n"] == 1:
+                                return sets[0]
+                            if nxt:
+                                return nxt[(state["burst"] + state["n"]) % len(nxt)]
+                        state["n"] = 0
+                        state["burst"] += 1
+                        if ops:
+                            return ops[0]
+                        return (sets or nxt or en)[0]
+
+                    run.run(decide, max_choices=3000)
+                    items.append((sid_, ("burst-settings", k, j), run))
         for i in range(15 if quick else 150):
             s = rng.randrange(1 << 30)
             r2 = random.Random(s)
